@@ -477,7 +477,8 @@ def proxy_failure_closes_rule(ctx, rule):
             n += 1
             nm = norm_text(rel[0].args[0])
             closes = [c for c in U.calls(h) if U.attr_name(c) == 'close' and norm_text(c.func.value) == nm]
-            ok = bool(closes) and min(c.lineno for c in closes) <= min(c.lineno for c in rel)
+            # a deferred give-back (no_wait_release) runs after the handler: closing right after scheduling it is as good
+            ok = bool(closes) and (min(c.lineno for c in closes) <= min(c.lineno for c in rel) or all(U.attr_name(c) == 'no_wait_release' for c in rel))
             ck.expect(ok, rule, ap.qual, '%s is closed before it is given back after a failed tunnel / TLS set-up' % nm,
                       'the failure handler returns the connection to the pool open: the next request for that host finds it "connected", '
                       'skips CONNECT and start_tls and is written to the proxy as it is - an https request with its credentials in clear text', ap.loc(h))
